@@ -9,9 +9,10 @@
    cloneNode, textContent, getElementsByTagName) runs on fuel and reports [RFuel] when it is exhausted
    (the Python then ends in RecursionError or never returns).
 
-   This file mirrors the code *after* the two proposed repairs of notes/C06/fix-1.diff:
-   [Node.insert] resolves a negative position once before inserting the items of a fragment, and
-   [Node.__setitem__] resolves its index like list item assignment before touching the child list.
+   This file mirrors the code *after* the proposed repairs notes/C06/fix-1.diff ([Node.__setitem__] resolves its
+   index like list item assignment before touching the child list), fix-2.diff ([Node.insert] resolves a negative
+   position once before inserting the items of a fragment) and fix-3.diff ([_compareDocumentPosition] decides the
+   order where the two ancestor chains part, not at their first common node).
    No proofs here. *)
 From Coq Require Import List ZArith Bool Arith.
 Import ListNotations.
@@ -354,7 +355,7 @@ Fixpoint normalize_f (fuel : nat) (h : heap) (self : nat) : heap * outcome :=
       else
         bind (for_each (fun h1 v => normalize_f f h1 v) h (map snd (attrs h self))) (fun h0 _ =>
         let nodes := children h0 self in
-        norm_items (normalize_f f) (set_children h0 self []) self nodes [])
+        bind (norm_items (normalize_f f) (set_children h0 self []) self nodes []) (fun h1 _ => (h1, ROk None)))
   end.
 
 (* NamedNodeMap.update(other):  for key, value in other.items(): self[key] = value *)
@@ -475,14 +476,17 @@ Fixpoint first_of (s o : nat) (l : list nat) : option Z :=
 
 Inductive cmp_res := CVal (z : Z) | CIndexError | CNext.
 
-(* for j, oparent in enumerate(oparents): if sparent is oparent: s = sparents[i+1]; o = oparents[j+1]; <first_of> *)
+(* for j, oparent in enumerate(oparents):
+       if sparent is oparent: s = sparents[i+1]; o = oparents[j+1]; if s is o: continue; <first_of> *)
 Fixpoint cmp_inner (h : heap) (sp : nat) (snext : option nat) (ops : list nat) : cmp_res :=
   match ops with
   | [] => CNext
   | op :: orest =>
       if Nat.eqb sp op then
         match snext, hd_error orest with
-        | Some s, Some o => match first_of s o (children h sp) with Some z => CVal z | None => cmp_inner h sp snext orest end
+        | Some s, Some o =>
+            if Nat.eqb s o then cmp_inner h sp snext orest        (* fix-2: still on the common part of the two branches *)
+            else match first_of s o (children h sp) with Some z => CVal z | None => cmp_inner h sp snext orest end
         | _, _ => CIndexError
         end
       else cmp_inner h sp snext orest
